@@ -219,20 +219,23 @@ def cmpTok (t : Str) : Option (CmpOp × Str) :=
   | '>' :: r => some (.gt, skipSp r)
   | _ => none
 
-/-- `OPERATION_RES` in order: `||`, `+`, `-`, `*`, `div`, `mod` (no white space needed after the words). -/
+/-- the two words of `OPERATION_RES`: `div`, `mod` (no white space needed after them) -/
+def arithWords (t : Str) : Option (ArithOp × Str) :=
+  match wordCI ['d', 'i', 'v'] t with
+  | some r => some (.div, skipSp r)
+  | none =>
+  match wordCI ['m', 'o', 'd'] t with
+  | some r => some (.mod, skipSp r)
+  | none => none
+
+/-- `OPERATION_RES` in order: `||`, `+`, `-`, `*`, `div`, `mod`. -/
 def arithTok (t : Str) : Option (ArithOp × Str) :=
   match t with
   | '|' :: '|' :: r => some (.concat, skipSp r)
   | '+' :: r => some (.add, skipSp r)
   | '-' :: r => some (.sub, skipSp r)
   | '*' :: r => some (.mul, skipSp r)
-  | _ =>
-    match wordCI ['d', 'i', 'v'] t with
-    | some r => some (.div, skipSp r)
-    | none =>
-    match wordCI ['m', 'o', 'd'] t with
-    | some r => some (.mod, skipSp r)
-    | none => none
+  | _ => arithWords t
 
 /-- `[ \t]+` after `and` / `or` -/
 def sp1 (r : Str) : Option Str :=
